@@ -201,7 +201,9 @@ LABELS = ["@//pkg:requirements.txt", "@@rules_x~//3rdparty/py:lock.txt", "@hub//
           "@//a/b/c:requirements_linux.txt", "@//nested:solution.txt", "@@//x:sub/lock.txt"]
 NAME_POOL = ["requests", "Flask", "zope.interface", "ruamel.yaml", "typing-extensions", "typing_extensions",
              "PyYAML", "Foo.Bar", "foo-bar", "a", "B", "x_y-z.w", "backports.zoneinfo", "py4j", "Pillow",
-             "importlib-metadata", "CamelCase", "n0", "a.b.c", "q-q", "via", "http", "extra1", "d3", "Z.z-z_z"]
+             "importlib-metadata", "CamelCase", "n0", "a.b.c", "q-q", "via", "http", "extra1", "d3", "Z.z-z_z",
+             # names that look like requirement/solution files once sanitized (*_in, *_txt, *_out)
+             "Sphinx-Plug.In", "notes-txt", "log-in", "fan.out", "check_IN", "in", "txt"]
 VERSIONS = ["1.0", "2.3.post1", "0.1a1", "2024.2.2", "1!2.0", "1.0+local.1", "0.10.9.7", "3", "1.2.3rc2", "4.5.dev6", "0.0.1"]
 SPECS = ["", "", "", ">=0", ">0", "!=9.9", "<99,>=0", ">=0.0.0a0", ">=0,!=0.0.0.1"]
 INPUT_NAMES = ["_main/pkg/requirements.in", "_main/3rdparty/requirements.in", "rules_x~/py/reqs.in",
@@ -288,11 +290,15 @@ def gen_spec(rng, odd: float = 0.2) -> Dict[str, Any]:
             src = {"kind": "wheel", "dir": rng.choice(fls), "file": fn, "wheel": is_wheel}
             hsh = "sha256:" + digest
         else:
+            # project page URLs as the index answers them (response.url): a directory, a directory
+            # without the slash, or a page *file* of a static mirror, with links relative to it
             base = rng.choice(["https://pypi.org/simple/%s/" % nm.lower(), "https://idx.example/root/pypi/+simple/%s/" % nm,
-                               "http://10.0.0.1:8080/simple/%s" % nm])
+                               "http://10.0.0.1:8080/simple/%s" % nm, "https://mirror.example/simple/%s/index.html" % nm.lower(),
+                               "https://static.example/pypi/simple/%s/index.html" % nm, "https://mirror.example/%s.html" % nm.lower()])
             frag = "#sha256=" + digest if hr < 0.93 else ("#md5=" + digest[:32] if hr < 0.96 else "")
             res = rng.choice(["../../packages/ab/cd/%s" % fn, "https://files.pythonhosted.org/packages/%s/%s" % (digest[:2], fn),
-                              "/root/pypi/+f/%s/%s" % (digest[:3], fn), "file:///srv/wheels/%s" % fn]) + frag
+                              "/root/pypi/+f/%s/%s" % (digest[:3], fn), "file:///srv/wheels/%s" % fn,
+                              "../../packages/%s" % fn, "../files/%s" % fn, fn, "./%s" % fn]) + frag
             src = {"kind": "url", "base": base, "res": res, "file": fn, "wheel": is_wheel}
             hsh = frag[1:].replace("=", ":") if frag else None
             if rng.random() < 0.02:
@@ -735,7 +741,8 @@ def gen_layout(rng, fls: Optional[List[str]] = None) -> Dict[str, Any]:
     may live elsewhere (sub-directory, sibling directory) and name the wheel directories
     relative to themselves, as a user writes them - so several inputs reach one wheel
     directory through different spellings ("wheeldir", "../wheeldir", "../../pkg/wheeldir")."""
-    names = rng.sample(["Foo.Bar", "baz-qux", "lone", "extra1", "Zed", "m.n-o", "pkg_a"], rng.choice([2, 3, 4, 5]))
+    names = rng.sample(["Foo.Bar", "baz-qux", "lone", "extra1", "Zed", "m.n-o", "pkg_a", "Sphinx-Plug.In", "notes-txt", "fan.out", "log_in"],
+                       rng.choice([2, 3, 4, 5]))
     if fls is None:
         fls = [rng.choice(FL_SIMPLE)] if rng.random() < 0.5 else rng.choice(
             [["w1", "w2"], ["sub/wheels"], ["../wheels"], ["./wheels"], ["wheels/linux", "wheels/mac"], ["w1", "../w2"],
@@ -791,6 +798,16 @@ def deep_parent(d: str) -> bool:
     while ups < len(parts) and parts[ups] == "..":
         ups += 1
     return ups > 0 and (len(parts) - ups != 1 or ".." in parts[ups:])
+
+
+def file_like_requirer(layout: Dict[str, Any]) -> bool:
+    """Known finding C19-requirer-named-like-file: when the front-end compiles against the lock it
+    wrote before, req_compile/repos/solution.py _add_sources takes a requirer annotation whose name
+    ends in ".txt" or ".out" for a requirements file and drops it, so a pinned project of such a
+    name loses its dependency edges in the re-written lock."""
+    if not layout.get("recompile"):
+        return False
+    return any(name.endswith((".txt", ".out")) and requires for whls in layout["wheels"].values() for name, _, requires in whls)
 
 
 def layout_accepted(layout: Dict[str, Any]) -> bool:
@@ -1019,7 +1036,9 @@ def correspondence(ctx: Ctx) -> None:
             ctx.count("e2e-input-dir:" + inp["in_dir"])
         add("P", p_line(e, text, label, None, {}), {"src": "e2e", "layout": layout, "text": text, "label": label, "constraint": None, "annotations": {}, "impl": obs})
         texts.append((text, label))
-        if layout_accepted(layout):
+        if layout_accepted(layout) and file_like_requirer(layout):
+            ctx.count("e2e-known:file-like-requirer-recompiled")
+        elif layout_accepted(layout):
             ctx.count("e2e-statement-checked")
             why = oracle_e2e(ctx, layout)
             if why is not None:
@@ -1222,13 +1241,13 @@ def search(ctx: Ctx) -> Optional[Dict[str, Any]]:
             return {"kind": "graph", "input": spec, "why": why}
     for mm in ctx.mismatches:
         c = mm.get("case")
-        if isinstance(c, dict) and c.get("layout") and layout_accepted(c["layout"]):
+        if isinstance(c, dict) and c.get("layout") and layout_accepted(c["layout"]) and not file_like_requirer(c["layout"]):
             why = oracle_e2e(ctx, c["layout"])
             if why:
                 return {"kind": "e2e", "input": c["layout"], "why": why}
     for _ in range(ctx.n(40, 200)):
         layout = gen_layout(rng)
-        if not layout_accepted(layout):
+        if not layout_accepted(layout) or file_like_requirer(layout):
             continue
         try:
             why = oracle_e2e(ctx, layout)
